@@ -33,6 +33,7 @@ func runC12(c *Ctx) {
 	c12TrieKeys(c)
 	c12IndexIsAppendPosition(c)
 	c01Dual(c)
+	scanIsStateless(c, "WALK", "control", "RoutingMatcher.Match", []string{"goodSubrule", "badRule", "must"})
 }
 
 func c12PrefixLen(c *Ctx) {
